@@ -1,5 +1,6 @@
 import EpgVerif.Props.C10
 import EpgVerif.Tie.ApplySites
+import EpgVerif.Props.C10Second
 open EpgVerif.Props.C10
 #print axioms flatten_spec
 #print axioms multi_attrs_sums
@@ -7,3 +8,6 @@ open EpgVerif.Props.C10
 #print axioms combine_assoc
 #print axioms combine_partials_first_order
 #print axioms EpgVerif.Tie.ApplySites.sites_as_modelled
+#print axioms applyOrder2_hom
+#print axioms applyOrder2_hom'
+#print axioms combine_partials_second_order
